@@ -66,6 +66,7 @@ func Harness_C10_Locations() {
 	vs.Assume(lim >= -1 && lim <= 2)
 	n.ShardRules = []*models.Shard{{DB: "db", Table: "t", Type: tp, Key: "id", Locations: locs, Slices: sl, TableRowLimit: lim}}
 	vs.TagB("emptyDefaultSlice", n.DefaultSlice == "")
+	vs.TagB("globalRuleWithMoreSliceEntriesThanTheNamespace", tp == models.ShardGlobal && len(sl) > 2)
 	vs.TagB("negativeLocation", minLoc < 0)
 	vs.TagB("noTables", sum <= 0)
 	if !vhC10Verify(n) {
